@@ -128,15 +128,34 @@ fn c09_scenario(rep: &Reporter, sc: &Scenario, tier: Tier, stats: &C09Stats, sam
     };
     let ks: Vec<u64> = (1..=k_max).collect();
     let causes: &[Cause] = &[Cause::Stop, Cause::Quit, Cause::Time];
-    let jobs: Vec<(u64, Cause)> = ks.iter().flat_map(|&k| causes.iter().map(move |&c| (k, c))).collect();
-    par_map_fine(&jobs, |&(k, cause)| {
+    // the form of the go command is a dimension of its own: forms that search the same tree (so the
+    // iteration boundaries and expected answers are the measured ones) are interrupted by stop on a
+    // sub-lattice of the points (every point in thorough runs)
+    let all_legal = legal.join(" ");
+    let forms: Vec<String> = vec![
+        format!("go depth {}", sc.depth),
+        format!("go ponder depth {}", sc.depth),
+        "go infinite".to_string(),
+        format!("go depth {} searchmoves {}", sc.depth, all_legal),
+        format!("go wtime 100000000 btime 100000000 winc 100000000 binc 100000000 depth {}", sc.depth),
+        "go ponder infinite".to_string(),
+    ];
+    let mut jobs: Vec<(u64, Cause, usize)> = ks.iter().flat_map(|&k| causes.iter().map(move |&c| (k, c, 0usize))).collect();
+    for &k in &ks {
+        for f in 1..forms.len() {
+            if tier == Tier::Thorough || k as usize % 5 == f % 5 {
+                jobs.push((k, Cause::Stop, f));
+            }
+        }
+    }
+    par_map_fine(&jobs, |&(k, cause, form)| {
         stats.runs.fetch_add(1, Ordering::Relaxed);
         let count = n2 + k - 1;
-        let case = |extra: Value| json!({"kind": "interrupt", "position": pos_line, "depth": sc.depth, "cause": format!("{:?}", cause), "poll_index": k, "negamax_nodes_at_interruption": count, "detail": extra});
+        let case = |extra: Value| json!({"kind": "interrupt", "position": pos_line, "depth": sc.depth, "cause": format!("{:?}", cause), "go": forms[form], "poll_index": k, "negamax_nodes_at_interruption": count, "detail": extra});
         let mut s = Session::new(false);
         s.line(&pos_line);
         let (go_line, plan) = match cause {
-            Cause::Stop | Cause::Quit => (format!("go depth {}", sc.depth), Plan { poll: Some((1, n2)), clock: Clock::Rate { ns_per_node: 0, jumps: vec![] }, gates: vec![k] }),
+            Cause::Stop | Cause::Quit => (forms[form].clone(), Plan { poll: Some((1, n2)), clock: Clock::Rate { ns_per_node: 0, jumps: vec![] }, gates: vec![k] }),
             Cause::Time => (format!("go depth {} movetime 5000", sc.depth), Plan { poll: Some((1, n2)), clock: Clock::AtPoll { k, before: Duration::ZERO, after: Duration::from_secs(10) }, gates: vec![] }),
         };
         let act = move |kk: u64| -> Vec<GateAction> {
@@ -177,7 +196,7 @@ fn c09_scenario(rep: &Reporter, sc: &Scenario, tier: Tier, stats: &C09Stats, sam
         // (2) the search thread's own position after the search
         if let (Some(b), Some(a)) = (&out.obs.before_fen, &out.obs.after_fen) {
             if a != b {
-                rep.report(format!("position_altered_by_interrupted_search:{:?}", cause), case(json!({"before": b, "after": a})));
+                rep.report(format!("position_altered_by_interrupted_search:{:?}{}", cause, if form == 0 { String::new() } else { format!(":{}", forms[form].split(' ').take(2).collect::<Vec<_>>().join("_")) }), case(json!({"before": b, "after": a})));
             }
         } else if cause != Cause::Quit {
             rep.machinery("board hook did not report before/after position");
@@ -440,7 +459,8 @@ pub fn replay_c09(case: &Value) -> i32 {
         } else {
             Plan { poll: if real { None } else { Some((1, n2)) }, clock: Clock::Rate { ns_per_node: 0, jumps: vec![] }, gates: vec![k] }
         };
-        let out = run_go(&mut s, &format!("go depth {}", depth), plan, &|kk| if kk == k { vec![GateAction::Stop] } else { vec![] });
+        let go_form = case["go"].as_str().map(|g| g.to_string()).unwrap_or_else(|| format!("go depth {}", depth));
+        let out = run_go(&mut s, &go_form, plan, &|kk| if kk == k { vec![GateAction::Stop] } else { vec![] });
         let again = run_go(&mut s, "go depth 1", Plan::virtual_rate(0), &none);
         s.quit();
         if round == 0 {
